@@ -96,6 +96,29 @@ pub fn c06(o: &Opts) -> Outcome {
         let recs: Vec<(String, Vec<u8>)> = inp["records"].split('|').enumerate().map(|(i, r)| (format!("r{}", i), unshow(r))).collect();
         return Outcome { cases: 1, witness: one(&recs, &inp["container"]) };
     }
+    // a CRLF FASTA larger than any read buffer, with the line terminators sweeping over every alignment mod 64
+    for pad in 0..64usize {
+        let recs: Vec<(String, Vec<u8>)> = (0..3).map(|i| (format!("r{}{}", i, "x".repeat(if i == 0 { pad } else { 3 })), (0..6000).map(|j| b"ACGT"[(i + j) % 4]).collect())).collect();
+        let sc = Scratch::new("reader");
+        let path = sc.path("big.fa");
+        std::fs::write(&path, fasta_bytes(&recs, 61, true)).unwrap();
+        cases += 1;
+        if let Some(w) = check_file(&path, &recs, &format!("fa-crlf-wrap61-pad{}", pad)) { return Outcome { cases, witness: Some(w) }; }
+    }
+    // gzip members of length zero between real members (bgzip EOF blocks in concatenated files), FASTQ and FASTA
+    {
+        let recs: Vec<(String, Vec<u8>)> = (0..4).map(|i| (format!("q{}", i), (0..50 + i).map(|j| b"ACGT"[(i + j) % 4]).collect())).collect();
+        for fq in [true, false] {
+            let sc = Scratch::new("reader");
+            let path = sc.path(if fq { "cat.fq.gz" } else { "cat.fa.gz" });
+            let mut b = Vec::new();
+            let ser = |r: &[(String, Vec<u8>)]| if fq { fastq_bytes(r) } else { fasta_bytes(r, 0, false) };
+            b.extend(gz(&ser(&recs[..2]))); b.extend(gz(b"")); b.extend(gz(&ser(&recs[2..]))); b.extend(gz(b""));
+            std::fs::write(&path, b).unwrap();
+            cases += 1;
+            if let Some(w) = check_file(&path, &recs, if fq { "fq-gz with empty members" } else { "fa-gz with empty members" }) { return Outcome { cases, witness: Some(w) }; }
+        }
+    }
     let mut rng = Rng(o.seed.wrapping_mul(0x9E3779B97F4A7C15) | 1);
     for round in 0..(if o.thorough { 200 } else { 30 }) {
         let n = 1 + rng.below(6) as usize;
